@@ -2,11 +2,11 @@ package dsim
 
 import (
 	"bytes"
-	"sync"
-	"time"
 	"errors"
 	"fmt"
 	"io"
+	"sync"
+	"time"
 
 	"github.com/aptpod/iscp-go/encoding"
 	encjson "github.com/aptpod/iscp-go/encoding/json"
@@ -18,19 +18,19 @@ import (
 // Net is the simulated network: it hands out in-memory links on Dial and moves
 // frames only when the scheduler says so.
 type Net struct {
-	s        *Sim
-	Links    []*Link
-	DialFail int  // the next DialFail dials return an error
-	NoDial   bool // teardown: every dial fails
-	Dials    int
-	Unrel    bool // links offer an unreliable (datagram) side channel
-	Inline   bool // zero-latency network: the broker answers inside Write
-	OnLost   func(l *Link, dir string, m message.Message)
-	OnDial   func(l *Link)
-	DialTimes []time.Duration
+	s               *Sim
+	Links           []*Link
+	DialFail        int  // the next DialFail dials return an error
+	NoDial          bool // teardown: every dial fails
+	Dials           int
+	Unrel           bool // links offer an unreliable (datagram) side channel
+	Inline          bool // zero-latency network: the broker answers inside Write
+	OnLost          func(l *Link, dir string, m message.Message)
+	OnDial          func(l *Link)
+	DialTimes       []time.Duration
 	InlineHandshake bool // only the connect handshake of new links is zero-latency
 	HandshakeCut    int  // the next n links die when the broker receives their ConnectRequest
-	inlineMu sync.Mutex
+	inlineMu        sync.Mutex
 }
 
 var errDialRefused = errors.New("dsim: dial refused")
@@ -48,8 +48,8 @@ type Link struct {
 	cfg transport.DialConfig
 	enc encoding.Encoding
 
-	c2b []cframe // written by the client, not yet seen by the broker
-	b2c [][]byte // produced by the broker, not yet delivered to the client
+	c2b    []cframe          // written by the client, not yet seen by the broker
+	b2c    [][]byte          // produced by the broker, not yet delivered to the client
 	b2cMsg []message.Message // parallel to b2c: the decoded form (nil for raw frames)
 
 	rx     chan []byte
@@ -242,7 +242,11 @@ func (l *Link) AsUnreliable() (transport.UnreliableTransport, bool) {
 }
 
 // Alive reports whether frames can still flow.
-func (l *Link) Alive() bool { return !l.isDead && !l.clientClosed }
+func (l *Link) Alive() bool {
+	l.net.s.mu.Lock()
+	defer l.net.s.mu.Unlock()
+	return !l.isDead && !l.clientClosed
+}
 
 func (l *Link) decode(b []byte) (message.Message, error) {
 	_, m, err := l.enc.DecodeFrom(bytes.NewReader(b))
@@ -430,11 +434,11 @@ var _ transport.Closer = (*Link)(nil)
 
 // unrelSide is the datagram side channel of a link (encoded frames, lossy).
 type unrelSide struct {
-	l      *Link
-	c2b    [][]byte
-	rx     chan []byte
-	closed bool
-	done   chan struct{}
+	l       *Link
+	c2b     [][]byte
+	rx      chan []byte
+	closed  bool
+	done    chan struct{}
 	tx, rxb uint64
 }
 
